@@ -110,14 +110,14 @@ func RunLedger(property string, tier Tier, profiles []*explore.Profile, require 
 func c01Profiles(tier Tier) []*explore.Profile {
 	p := transferProfile(tier)
 	p.Oracles = []explore.Oracle{&conservationOracle{property: "C01"}}
-	return []*explore.Profile{p}
+	return []*explore.Profile{p, highNonceProfile("high-nonce", tier, p.Oracles, 3)}
 }
 
 func init() { LedgerProfiles["C01"] = c01Profiles }
 
 // C01 decides "transfers conserve tokens".
 func C01(tier Tier) int {
-	return RunLedger("C01", tier, c01Profiles(tier), []string{
+	return RunLedger("C01", tier, c01Profiles(tier), []string{"high-nonce-reached",
 		"delivered:ESDTTransfer:k1-fungible", "delivered:ESDTNFTTransfer:k1-nft", "delivered:MultiESDTNFTTransfer:k1-fungible",
 		"delivered:MultiESDTNFTTransfer:k1-nft", "delivered:MultiESDTNFTTransfer:k2-mixed",
 		"refund-delivered:ESDTTransfer", "delivery-refused-legitimately",
